@@ -50,6 +50,14 @@ func recordStream(enc *json.Encoder, def lexer.Definition, label string, nodrop 
 		sd, isStr := def.(lexer.StringDefinition)
 		bd, isBytes := def.(lexer.BytesDefinition)
 		switch {
+		case label == "text/pkg.LexString":
+			l = lexer.LexString(fn, in) // the package-level helpers of the text/scanner lexer
+		case label == "text/pkg.LexBytes":
+			l = lexer.LexBytes(fn, []byte(in))
+		case label == "text/pkg.LexWithScanner":
+			sc := &scanner.Scanner{}
+			sc.Init(strings.NewReader(in))
+			l = lexer.LexWithScanner(fn, sc)
 		case strings.HasSuffix(label, "/dataerr"):
 			l, err = def.Lex(fn, iotest.DataErrReader(strings.NewReader(in))) // the last bytes arrive together with io.EOF
 		case strings.HasSuffix(label, "/onebyte"):
@@ -186,6 +194,9 @@ func lexstreamRecord(args []string) error {
 			s.Error = func(*scanner.Scanner, string) {}
 		}), "textquiet", false})
 		lexers = append(lexers, lx{lexer.TextScannerLexer, "text/dataerr", false})
+		for _, lb := range []string{"text/pkg.LexString", "text/pkg.LexBytes", "text/pkg.LexWithScanner"} {
+			lexers = append(lexers, lx{lexer.TextScannerLexer, lb, false})
+		}
 	}
 	traces, events := 0, 0
 	for _, l := range lexers {
